@@ -19,7 +19,7 @@ use biodivine_lib_param_bn::symbolic_async_graph::{GraphColoredVertices, Symboli
 use std::collections::HashMap;
 use std::time::Instant;
 
-const QUICK_MODELS: [&str; 4] = ["myeloid", "110_9v_parametrized", "110_9v_concrete", "model-010-13var-2in"];
+const QUICK_MODELS: [&str; 5] = ["myeloid", "110_9v_parametrized", "110_9v_concrete", "model-010-13var-2in", "tacas2"];
 
 fn plan(tier: Tier) -> (u64, Vec<&'static str>, u64) {
     // (small-network cases, models, set pairs per model)
@@ -211,132 +211,65 @@ fn run(rng: &mut Rng, idx: u64, tier: Tier) -> CaseOut {
     run_big_in_child(model_name, j, rng.next(), tier)
 }
 
-/// Big-model cases run in a child process (this same binary, sub-command `c11-child`) under a
-/// wall-clock and an address-space limit, because a single symbolic operator on a large
-/// parametrised model cannot be interrupted from inside. A child that is killed or runs out of
-/// memory makes the case inconclusive, never violated.
-fn run_big_in_child(model_name: &str, j: u64, seed: u64, tier: Tier) -> CaseOut {
-    let mut out = CaseOut::new(format!("{model_name}-{j}"));
-    let budget_s: u64 = if tier == Tier::Quick { 40 } else { 120 };
-    let mem_kb: u64 = 6_000_000;
-    // at most 6 children at a time (6 x 6 GB address space on a 62 GB machine)
-    static RUNNING: std::sync::atomic::AtomicUsize = std::sync::atomic::AtomicUsize::new(0);
-    loop {
-        let cur = RUNNING.load(std::sync::atomic::Ordering::SeqCst);
-        if cur < 6 && RUNNING.compare_exchange(cur, cur + 1, std::sync::atomic::Ordering::SeqCst, std::sync::atomic::Ordering::SeqCst).is_ok() {
-            break;
-        }
-        std::thread::sleep(std::time::Duration::from_millis(20));
-    }
-    struct Release;
-    impl Drop for Release {
-        fn drop(&mut self) {
-            RUNNING.fetch_sub(1, std::sync::atomic::Ordering::SeqCst);
-        }
-    }
-    let _release = Release;
-    let exe = std::env::current_exe().expect("own path");
-    let cmd = format!("ulimit -v {mem_kb}; exec '{}' c11-child {} {} {}", exe.display(), model_name, seed, budget_s);
-    let child = std::process::Command::new("sh").arg("-c").arg(&cmd).stdout(std::process::Stdio::piped()).stderr(std::process::Stdio::null()).spawn();
-    let mut child = match child {
-        Ok(c) => c,
-        Err(e) => {
-            out.inconclusive(&format!("cannot start the child process: {e}"));
-            return out;
-        }
-    };
-    let start = Instant::now();
-    let killed = loop {
-        match child.try_wait() {
-            Ok(Some(_)) => break false,
-            Ok(None) => {
-                if start.elapsed().as_secs() > budget_s + 20 {
-                    let _ = child.kill();
-                    let _ = child.wait();
-                    break true;
-                }
-                std::thread::sleep(std::time::Duration::from_millis(50));
-            }
-            Err(_) => break true,
-        }
-    };
-    let mut text = String::new();
-    if let Some(mut so) = child.stdout.take() {
-        use std::io::Read;
-        let _ = so.read_to_string(&mut text);
-    }
-    let mut done = false;
-    for line in text.lines() {
-        let parts: Vec<&str> = line.splitn(3, '\t').collect();
-        match parts.as_slice() {
-            ["COUNT", name, n] => out.add(name, n.parse().unwrap_or(0)),
-            ["KEY", k, _] => out.key = k.to_string(),
-            ["NONTRIVIAL", sample, _] => {
-                out.nontrivial = true;
-                out.sample = Some(J::obj(vec![("big_model_case", J::s(sample))]));
-            }
-            ["VIOLATION", sig, what] => {
-                out.violate(sig, format!("model {model_name}: {what}"), J::obj(vec![("model", J::s(model_name)), ("child_seed", J::Int(seed as i64)), ("what", J::s(what))]));
-            }
-            ["INCONCLUSIVE", why, _] => out.inconclusive(why),
-            ["DONE", _, _] => done = true,
-            _ => {}
-        }
-    }
-    if !done && !out.is_violated() {
-        out.count(&format!("cut_{model_name}"));
-        out.count("big_model_cases_cut_by_budget");
-        out.inconclusive(if killed { "child exceeded its wall-clock budget" } else { "child ended early (memory limit or crash of the harness child)" });
-    } else if done {
-        out.count("big_model_cases_completed");
-        out.count(&format!("completed_{model_name}"));
-    }
-    out
+fn run_big_in_child(model_name: &str, _j: u64, seed: u64, tier: Tier) -> CaseOut {
+    crate::bigrun::run_in_child("C11", model_name, seed, if tier == Tier::Quick { 40 } else { 120 })
 }
 
-/// Body of the child process: prints tab-separated records on stdout.
-pub fn child_main(model_name: &str, seed: u64, budget_s: u64) {
-    let mut rng = Rng::new(seed);
-    let mut out = CaseOut::new(String::new());
+/// Body of a bundled-model case (runs in the child process, see bigrun.rs).
+pub fn big_body(model_name: &str, rng: &mut Rng, out: &mut CaseOut, deadline: Instant) {
     let start = Instant::now();
     let model = match models::load(model_name, 0) {
         Ok(m) => m,
         Err(e) => {
-            println!("INCONCLUSIVE\tcannot load model {model_name}: {}\t", e.replace(['\n', '\t'], " "));
+            out.inconclusive(&format!("cannot load model {model_name}: {e}"));
             return;
         }
     };
-    let (s, sd) = models::random_set(&mut rng, &model.graph);
-    let (t, td) = models::random_set(&mut rng, &model.graph);
-    let (extra, _) = models::random_set(&mut rng, &model.graph);
-    let s2 = s.union(&extra);
-    println!("KEY\t{model_name}|{sd}|{td}\t");
-    let deadline = start + std::time::Duration::from_secs(budget_s);
-    let unit = model.graph.mk_unit_colored_vertices();
-    let res = check_laws(&model.graph, &s, &t, &s2, &mut out, deadline, 3000);
-    for (k, v) in &out.counters {
-        println!("COUNT\t{k}\t{v}");
+    let (mut s, mut sd) = models::random_set(rng, &model.graph);
+    let (t, td) = models::random_set(rng, &model.graph);
+    let (extra, _) = models::random_set(rng, &model.graph);
+    if rng.chance(1, 3) {
+        // hostile family "huge set + thin chain": a large EG-closed set plus a short forward chain of single
+        // (state, colour) pairs outside of it. A greatest fixed point has to peel the chain one element per
+        // iteration, i.e. by changes that are tiny relative to the size of the set.
+        let sym = Sym::new(&model.graph);
+        if let Some(big) = sym.eg(&s, 200) {
+            let unit = model.graph.mk_unit_colored_vertices();
+            let mut chain = model.graph.mk_empty_colored_vertices();
+            let outside = unit.minus(&big);
+            if !outside.is_empty() {
+                let mut cur = outside.pick_singleton();
+                for _ in 0..rng.range(2, 5) {
+                    chain = chain.union(&cur);
+                    let next = model.graph.post(&cur).minus(&big).minus(&chain);
+                    if next.is_empty() {
+                        break;
+                    }
+                    cur = next.pick_singleton();
+                }
+                s = big.union(&chain);
+                sd = format!("EG({sd}) + chain of {} single pairs", chain.approx_cardinality());
+                out.count("sets_huge_plus_thin_chain");
+            }
+        }
     }
-    match res {
+    let s2 = s.union(&extra);
+    out.key = format!("{model_name}|{sd}|{td}");
+    let unit = model.graph.mk_unit_colored_vertices();
+    match check_laws(&model.graph, &s, &t, &s2, out, deadline, 3000) {
         Ok(changed) => {
-            if Instant::now() > deadline {
-                println!("INCONCLUSIVE\tper-case time budget exceeded (partial laws checked)\t");
-                return;
-            }
-            if changed && !s.is_empty() && s != unit {
-                println!(
-                    "NONTRIVIAL\tmodel {model_name} ({} variables, {} colours): S = {sd} ({} elements), T = {td} ({} elements), {:.1} s\t",
-                    model.graph.num_vars(),
-                    model.graph.unit_colors().approx_cardinality(),
-                    s.approx_cardinality(),
-                    t.approx_cardinality(),
-                    start.elapsed().as_secs_f64()
-                );
-            }
-            println!("DONE\t\t");
+            out.nontrivial = changed && !s.is_empty() && s != unit;
+            out.sample = Some(J::s(&format!(
+                "model {model_name} ({} variables, {} colours): S = {sd} ({} elements), T = {td} ({} elements), {:.1} s",
+                model.graph.num_vars(),
+                model.graph.unit_colors().approx_cardinality(),
+                s.approx_cardinality(),
+                t.approx_cardinality(),
+                start.elapsed().as_secs_f64()
+            )));
         }
         Err((sig, what)) => {
-            println!("VIOLATION\t{}\t{} [S = {sd}; T = {td}]", sig.replace(['\n', '\t'], " "), what.replace(['\n', '\t'], " "));
+            out.violate(&sig, format!("{what} [S = {sd}; T = {td}]"), J::Null);
         }
     }
 }
